@@ -6,6 +6,8 @@ hooks = subprocess.run(['git','-C','/repo','log','--format=%h %s'],capture_outpu
 hook_commits = [l.split()[0] for l in hooks if l.split(' ',1)[1].startswith('verif:')]
 TECH = "contract-based deductive verification: weakest-precondition VCs generated from go/ssa of /repo on every run, contracts as //@ comments in /repo/verif_*.go, discharged by z3/cvc5"
 claimed = {
+ "C07": ("URL parsing proved panic-free for every raw URL and every schema: NewURLFromRaw, NewSimpleURL, NewURL, NewParams (18 loops: every index, slice bound, make capacity, nil-map write and type assertion is a discharged obligation), parseCommaList, parseFragments, deduceRoute, SimpleURL.Path, Type.Fields; error-xor-result for NewURL/NewParams/NewURLFromRaw; a returned URL's resource type exists in the schema (given that every relationship's target exists, which Schema.Check establishes); list items produced by the parser are non-empty; NewSimpleURL/NewURL only allocate (frame proved).",
+         "Assumed: url.Parse / URL.Query / Values.Get / strings.Split contracts (arbitrary result, fresh memory, Query lists are non-empty); the frame of NewParams is declared and assumed (flag noframe). Not covered: the content postconditions of NewParams (field lists without duplicates and defaulting, inclusion chains, sorting-rule prefix/totality)."),
  "C10": ("Per-kind comparison semantics (opsem) proved as postconditions of checkStr/Int/Uint/Bool/Time/Bytes/Slice/In for all inputs; checkVal's dispatch proved per dynamic type (30 types + nil); Filter.IsAllowed proved equal to the one-level unfolding of the logical reading (and/or/in/has/comparison) with recursive calls by contract; trichotomy, complementarity and unknown-operator laws as lemmas over those contracts.",
          "Assumed: bytes.Compare is the lexicographic order, sort.Strings sorts in place, time.Equal/Before/After compare instants; the Resource interface contract (typing of Get); partial correctness of the recursion (acyclic trees); filter trees whose comparison leaves are not on to-many relationships (checkSlice sorts in place; its own contract is proved separately)."),
  "C14": ("Representation invariant schemaWf (unique non-empty type names, per-type attribute/relationship maps keyed by name with valid kinds and non-empty targets, no two types sharing a map) proved to be preserved by AddType, RemoveType, AddAttr, RemoveAttr, AddRel, RemoveRel, AddTwoWayRel and Type.AddAttr/RemoveAttr/AddRel/RemoveRel, with no panic; error returns leave the schema unchanged (deep comparison); removal of something absent changes nothing; HasType/GetType agree with the list; AddTwoWayRel succeeds when types exist and names are free, for either direction and inside one type, and leaves both sides holding the relationship and its inverse. Induction over histories is the invariant preservation.",
